@@ -140,6 +140,7 @@ class CNFLinear(BaseCNF):
 
         # We fist manage the case of !=
         if op == "!=":
+            lits = list(lits)
             n = len(lits)
             if constant < 0 or constant > n:
                 return
